@@ -112,11 +112,10 @@ private:
 };
 
 // ------------------------------------------------------ value <-> bytes ----
-// entry i of a group: random access (operator[]) where the group offers it,
-// forward iteration otherwise; the iteration path of flat groups is checked
-// separately (group_ops::entry_addrs)
+// entry i of a group by forward iteration (valid for flat and nested groups;
+// no precondition on i, which the checked-mode harness relies on)
 template<typename G, typename I>
-auto nth_iter(G g, I i) -> decltype(*g.begin())
+auto nth(G g, I i) -> decltype(*g.begin())
 {
     auto it = g.begin();
     for(I k = 0; k < i; ++k)
@@ -125,17 +124,25 @@ auto nth_iter(G g, I i) -> decltype(*g.begin())
     }
     return *it;
 }
-template<typename G, typename I>
-typename std::enable_if<sbepp::is_flat_group<G>::value, decltype(*std::declval<G>().begin())>::type
-    nth(G g, I i)
+// start offsets of all entries through operator[] (flat groups only; empty
+// result for nested groups, which have no random access)
+template<typename G>
+typename std::enable_if<sbepp::is_flat_group<G>::value, std::vector<std::ptrdiff_t>>::type
+    index_addrs(G g, char* p)
 {
-    return g[static_cast<typename G::size_type>(i)];
+    std::vector<std::ptrdiff_t> r;
+    for(typename G::size_type i = 0; i < g.size(); i++)
+        r.push_back(sbepp::addressof(g[i]) - p);
+    return r;
 }
-template<typename G, typename I>
-typename std::enable_if<!sbepp::is_flat_group<G>::value, decltype(*std::declval<G>().begin())>::type
-    nth(G g, I i)
+template<typename G>
+typename std::enable_if<!sbepp::is_flat_group<G>::value, std::vector<std::ptrdiff_t>>::type
+    index_addrs(G g, char* p)
 {
-    return nth_iter(g, i);
+    std::vector<std::ptrdiff_t> r;
+    for(auto e : g)
+        r.push_back(sbepp::addressof(e) - p);
+    return r;
 }
 
 template<typename T>
@@ -211,6 +218,8 @@ struct group_ops
     std::function<void(char*, std::size_t, ipath, std::uint64_t)> resize;
     // start offsets of all entries obtained by range-for iteration
     std::function<std::vector<std::ptrdiff_t>(char*, std::size_t, ipath)> entry_addrs;
+    // ... and through operator[] (flat groups)
+    std::function<std::vector<std::ptrdiff_t>(char*, std::size_t, ipath)> entry_addrs_idx;
 };
 struct data_ops
 {
@@ -836,7 +845,10 @@ void assign_data(D d, const bytes& b)
                 for(auto e : g)                                               \
                     r.push_back(::sbepp::addressof(e) - p);                   \
                 return r;                                                     \
-            }})
+            },                                                                \
+            [](char* p, std::size_t n, ::vh::ipath ip)                        \
+                -> std::vector<std::ptrdiff_t>                                \
+            { return ::vh::index_addrs(LV(M{p, n}, ip).NAME(), p); }})
 
 #define VH_REG_DATA(KEY, M, LV, NAME)                                         \
     static ::vh::reg_data VH_CAT(vh_r_, __COUNTER__)(                         \
